@@ -87,3 +87,19 @@ Definition footprint_rep (w : ws) (o : op) : list key :=
   | Reopen => filter (fun x => kind_eqb (fst x) KG) (wpend w)
   | _ => footprint w o
   end.
+
+(* ---------------- side condition of the partial C01/C02 theorems ---------------- *)
+(* close sweeps the dead identifiers of GROUPS only, and the workspace object that re-opens the file starts with empty
+   registries: when a close + open happens while a dead object/data identifier is still pending, its flat node stays in
+   the file but nobody remembers it (it can no longer be swept).  [clean_run] = this never happens in the history:
+   at every Reopen all pending identifiers are groups. *)
+Definition clean_op (w : ws) (o : op) : bool :=
+  match o with
+  | Reopen => forallb (fun k => kind_eqb (fst k) KG) (wpend w)
+  | _ => true
+  end.
+Fixpoint clean_run (ops : list op) (w : ws) : bool :=
+  match ops with
+  | [] => true
+  | o :: r => clean_op w o && clean_run r (fst (step w o))
+  end.
